@@ -9,24 +9,24 @@ The theorem holds for **all** finite timed traces (no length bound) and for ever
 namespace Hpl
 
 section
-variable (holds : Pred → Env → Msg → Bool)
+variable (holds : Pred → TEnv → Msg → Bool)
 
-theorem matchAll_simpleEvents (σ : Env) (m : Msg) (e : Event) :
+theorem matchAll_simpleEvents (σ : TEnv) (m : Msg) (e : Event) :
     e.matchAll holds σ m = e.simpleEvents.flatMap (Event.matchAll holds σ m) := by
   induction e with
   | simple t a p => simp [Event.simpleEvents]
   | disj a b iha ihb => simp [Event.simpleEvents, Event.matchAll, iha, ihb, List.flatMap_append]
 
-theorem matchAll_eq_nil_iff (σ : Env) (m : Msg) (e : Event) :
+theorem matchAll_eq_nil_iff (σ : TEnv) (m : Msg) (e : Event) :
     e.matchAll holds σ m = [] ↔ ∀ a ∈ e.simpleEvents, a.matchAll holds σ m = [] := by
   rw [matchAll_simpleEvents]; simp [List.flatMap_eq_nil_iff]
 
-theorem mem_matchAll_iff (σ σ' : Env) (m : Msg) (e : Event) :
+theorem mem_matchAll_iff (σ σ' : TEnv) (m : Msg) (e : Event) :
     σ' ∈ e.matchAll holds σ m ↔ ∃ a ∈ e.simpleEvents, σ' ∈ a.matchAll holds σ m := by
   rw [matchAll_simpleEvents]; simp [List.mem_flatMap]
 
 /-- splitting the split event of a pattern: the pattern holds on a segment iff every alternative's copy does -/
-theorem satPattern_alts (σ : Env) (t0 : Rat) (seg : List Msg) (p : Pattern) :
+theorem satPattern_alts (σ : TEnv) (t0 : Rat) (seg : List Msg) (p : Pattern) :
     satPattern holds σ t0 seg p ↔ ∀ q ∈ patternAlts p, satPattern holds σ t0 seg q := by
   obtain ⟨kind, b, tg, mn, T⟩ := p
   cases kind <;> cases tg <;>
@@ -91,7 +91,7 @@ end
 
 /-! ## the hypothesis and the choice of split position are necessary (each with a concrete trace) -/
 
-def holdsAll : Pred → Env → Msg → Bool := fun _ _ _ => true
+def holdsAll : Pred → TEnv → Msg → Bool := fun _ _ _ => true
 def evN (n : String) : Event := .simple n none .vtrue
 def globalScope : Scope := ⟨.global, none, none⟩
 
